@@ -39,8 +39,10 @@ pub fn replay() {
         // the group-letter stratum is run on a word around every cardinal of the inventory (each group is a class of the WHOLE inventory)
         let sweep_words: Vec<String> = if kind == "group-sweep" { t.cards.iter().flat_map(|(g, _)| [format!("a{g}"), format!("{g}a")]).collect() } else { vec![] };
         let nw = if kind == "group-sweep" { sweep_words.len() } else { nwords };
+        // half of the words are assembled from segments matching the elements of (one of) the expanded rules
+        let directed: Vec<String> = if kind == "group-sweep" { vec![] } else { vec["long"].as_array().map(|l| l.iter().flat_map(|r| crate::directed::words(r, &t, &mut rng, 2)).collect()).unwrap_or_default() };
         for wi in 0..nw {
-            let wt = if kind == "group-sweep" { sweep_words[wi].clone() } else { gen_word_text(&mut rng, true) };
+            let wt = if kind == "group-sweep" { sweep_words[wi].clone() } else if wi % 2 == 1 && wi / 2 < directed.len() { sum.count("directed_words", 1); directed[wi / 2].clone() } else { gen_word_text(&mut rng, true) };
             let Ok(word) = v::parse_word(&wt, &al) else { continue };
             sum.vectors += 1; sum.count(&kind, 1);
             let a = run_rules(&short, &word, 20_000, false);
